@@ -127,6 +127,8 @@ def entry_points(h, rec):
     pu = f("edgegraph.output.plantuml.render_to_plantuml_src")
     eps.append(("render_to_plantuml_src", "edgegraph.output.plantuml.render_to_plantuml_src", ("user_render_func",), lambda g, cb: plantuml_call(h, pu, g, cb)))
     eps.append(("render_to_plantuml_src(title_format='T_{name}')", "edgegraph.output.plantuml.render_to_plantuml_src", (), lambda g, cb: plantuml_call(h, pu, g, cb, "T_{name}")))
+    # a title format naming an attribute that no vertex has: however the call ends (it may well raise), the vertices gain nothing
+    eps.append(("render_to_plantuml_src(title_format='T_{nick}')", "edgegraph.output.plantuml.render_to_plantuml_src", (), lambda g, cb: plantuml_call(h, pu, g, cb, "T_{nick}")))
     return eps
 
 
